@@ -7,6 +7,7 @@
 #include <asam_cmp/tecmp_decoder.h>
 
 #include <dlfcn.h>
+#include <sys/wait.h>
 
 #include <thread>
 
@@ -137,6 +138,7 @@ void prepTecmp(Arg& A)
     A.frames.push_back(ref::tecmpFrame(h, ref::tecmpCanPayload(0x100 + A.u, 8, patt(8, A.u), 2)));
     h.dataType = ref::TD_CANFD;
     A.frames.push_back(ref::tecmpFrame(h, ref::tecmpCanPayload(0x200 + A.u, 12, patt(12, A.u + 1), 3)));
+    A.frames.push_back(ref::tecmpFrame(h, ref::tecmpCanPayload(0x300 + A.u, (uint8_t) (9 + A.u % 3), patt(9 + A.u % 3, A.u + 5), 3)));   // no DLC code for this length
     h.dataType = ref::TD_LIN;
     A.frames.push_back(ref::tecmpFrame(h, ref::tecmpLinPayload((uint8_t) A.u, 4, patt(4, A.u + 2), true, 0x5A)));
     h.dataType = 0; h.msgType = ref::TM_CM_STATUS;
@@ -217,8 +219,15 @@ void bodyBuild(int, void* a)
     h = mc::fnv(ip.getRawPayload(), ip.getLength(), h);
     h = mc::fnv(cm.getRawPayload(), cm.getLength(), h);
     CanFdPayload c;
-    Bytes d = patt(12, A.u);
+    Bytes d = patt(64, A.u);
     c.setId(A.u);
+    // lengths with and without a DLC code, different per thread (first use of a value inside the process may fill a table)
+    for (size_t len : {(size_t) 12, (size_t) (9 + A.u % 3), (size_t) (13 + A.u % 2), (size_t) 64, (size_t) (33 + A.u % 7)})
+    {
+        c.setData(d.data(), (uint8_t) len);
+        h = mc::mix(h, (uint64_t) c.getDlc() << 8 | c.getDataLength());
+        API_POINT();
+    }
     c.setData(d.data(), 12);
     Packet p;
     p.setPayload(c);
@@ -229,6 +238,7 @@ void bodyBuild(int, void* a)
 }
 
 using BodyFn = void (*)(int, void*);
+static void soloDigestsInChild(std::vector<Arg>& solo);
 const char* kBodyName[5] = {"enc", "dec", "tecmp", "status", "build"};
 BodyFn kBody[5] = {bodyEnc, bodyDec, bodyTecmp, bodyStatus, bodyBuild};
 
@@ -247,6 +257,38 @@ int kindOf(const std::string& n)
         if (n == kBodyName[i])
             return i;
     return -1;
+}
+
+// The reference digests are computed in a forked child: the exploring / free-running process must not be warmed up by
+// a sequential run (a lazily filled static table or cache would otherwise already be complete when the threads start).
+static void soloDigestsInChild(std::vector<Arg>& solo)
+{
+    int fd[2];
+    if (pipe(fd) != 0)
+        exit(2);
+    fflush(stdout);
+    pid_t pid = fork();
+    if (pid == 0)
+    {
+        close(fd[0]);
+        for (auto& a : solo)
+        {
+            kBody[a.kind](0, &a);
+            if (write(fd[1], &a.digest, sizeof a.digest) != (ssize_t) sizeof a.digest)
+                _exit(3);
+        }
+        _exit(0);
+    }
+    close(fd[1]);
+    for (auto& a : solo)
+        if (read(fd[0], &a.digest, sizeof a.digest) != (ssize_t) sizeof a.digest)
+        {
+            fprintf(stderr, "solo run of body %s failed\n", kBodyName[a.kind]);
+            exit(2);
+        }
+    close(fd[0]);
+    int st;
+    waitpid(pid, &st, 0);
 }
 
 }  // namespace
@@ -274,8 +316,8 @@ int main(int argc, char** argv)
             solo[i].u = args[i].u = (uint32_t) (17 + 40 * i);
             prep(solo[i]);
             prep(args[i]);
-            kBody[set[i]](0, &solo[i]);
         }
+        soloDigestsInChild(solo);
         std::vector<std::thread> th;
         for (size_t i = 0; i < set.size(); ++i)
             th.emplace_back([&, i] {
@@ -351,8 +393,8 @@ int main(int argc, char** argv)
         solo[i].u = args[i].u = (uint32_t) (17 + 40 * i);
         prep(solo[i]);
         prep(args[i]);
-        kBody[kinds[i]](0, &solo[i]);   // alone, before any exploration
     }
+    soloDigestsInChild(solo);   // alone, in another process, before any exploration
     srt::init(n);
     std::vector<srt::Body> bodies;
     std::vector<void*> argp;
